@@ -1,5 +1,8 @@
 //! Helpers of the C07 check: the naive model inverted index + segment builder (`model`) the read-back
-//! comparison (`verify`) and the generator of terms with equal in-memory hash (`collide`).
+//! comparison (`verify`), the generator of terms with equal in-memory hash (`collide`) and the plans
+//! that put doc-id deltas, term frequencies and positions on the length boundaries of the
+//! variable-length integer encoding (`vintedge`).
 pub mod collide;
 pub mod model;
 pub mod verify;
+pub mod vintedge;
